@@ -281,6 +281,13 @@ def enumerate_cases(tier, seed):
         for g in sorted(W.GARBAGE):
             yield mk({"actors": [rd]}, peer={"script": [[3, "garbage", g]]})
             yield mk({"actors": [[[10, "receive", None]], [[1, "close", 1000]]]}, peer={"script": [[3, "garbage", g]]})
+        for d in (1, 5, 10, 20):
+            for code in (1000, 4999, None):
+                # close() from two tasks at the same instant as the peer's close, a third task in receive()
+                yield mk({"actors": [[[0, "receive_t", 50]], [[d, "close", 1011]], [[d, "close", 1009]]]},
+                         peer={"script": [[d, "close", code]]})
+                yield mk({"autoclose": False, "actors": [[[0, "receive", None]], [[d, "close", 1011]], [[d, "close", 1009]]]},
+                         peer={"script": [[d, "close", code]], "tcp_after_close": "keep"})
         # a peer that answers pings but never the close and sends one more frame after our close frame:
         # inbound data re-arms the heartbeat of the closed session
         yield mk({"close_timeout": 0.05, "heartbeat": 0.02, "actors": [[[5, "close", 1000]]]},
@@ -292,6 +299,8 @@ def enumerate_cases(tier, seed):
                  peer={"answer_close": "never", "script": [[20, "text", 3]] * 7})
         yield mk({"receive_timeout": 0.03, "actors": [rd + rd]}, peer={"script": [[50, "text", 1]]}, finale=("peer_close", 150))
         yield mk({"actors": [[[0, "receive_t", 20], [0, "close", 1000]]]}, peer={"script": [[40, "close", 1000]]})
+        # receive() times out, the peer's close arrives, the application closes afterwards
+        yield mk({"actors": [[[0, "receive_t", 5], [30, "close", 1000]]]}, peer={"script": [[10, "close", 3000]]})
     for d in (0, 1, 5):
         for ac in (True, False):
             yield _case("CS", srv={"autoclose": ac, "actors": [rd, [[d, "close", 4000]]]}, cli=dict(idle, autoclose=ac))
@@ -870,10 +879,14 @@ def run(scn, ch, log=False):
                             f"cancelled tasks: {sorted(i for i, t in sd.tasks if t in cancelled_tasks)}; "
                             f"calls: {[_fmt_call(x) for x in sd.calls]}")
             # close() issued while a receive was pending in another task (the _waiting/_close_wait handshake)
+            cdr_tasks = set()
             for c in sd.calls:
-                if c.op == "close" and any(r.op in ("receive", "receive_t", "iter") and r.task is not c.task and r.t0 <= c.t0
-                                           and (r.t1 is None or r.t1 >= c.t0) and r.s0 < c.s0 for r in sd.calls):
+                if c.op == "close" and any(r.op in ("receive", "receive_t", "iter") and r.task is not c.task
+                                           and r.s0 < c.s0 and (r.s1 is None or r.s1 >= c.s0) for r in sd.calls):
                     flags.add("close_during_receive")
+                    cdr_tasks.add(c.task)
+            if len(cdr_tasks) >= 2:
+                flags.add("two_closes_during_receive")  # close() from two tasks while a third is in receive()
             # ---- heartbeat: an idle open session must have been closed by the pong timeout
             hb = sd.heartbeat
             if hb and not closed and not lost and not ws._closing and not step_capped:
@@ -902,9 +915,8 @@ def run(scn, ch, log=False):
                     if code != 1006 and not garbage:
                         how = "sent its close frame and " if closes else ""
                         in_close_wait = _cancelled_in_close_wait(sd)
-                        violate("close_code", f"{name}:code_{'1000' if code == 1000 else 'None' if code is None else 'other'}_without_peer_close"
-                                + (":close_during_receive" if "close_during_receive" in flags else "")
-                                + (":after_cancelled_close" if in_close_wait else ""),
+                        why = ":after_cancelled_close" if in_close_wait else ":close_during_receive" if "close_during_receive" in flags else ""
+                        violate("close_code", f"{name}:code_{'1000' if code == 1000 else 'None' if code is None else 'other'}_without_peer_close" + why,
                                 f"{name} session is closed, it {how}never received a close frame from the peer "
                                 f"(connection lost={lost}), but reports close_code={code} instead of 1006; "
                                 f"calls: {[_fmt_call(c) for c in sd.calls]}")
@@ -915,11 +927,20 @@ def run(scn, ch, log=False):
                         allowed = allowed | {1006}
                     if code not in allowed:
                         in_close_wait = _cancelled_in_close_wait(sd)
-                        violate("close_code", f"{name}:code_{code if code in (None, 1000, 1006) else 'other'}_despite_peer_close"
-                                + (":peer_close_without_status" if pc is None else "")
-                                + (":after_receive_timeout" if "receive_timeout_fired" in flags and code == 1006 else "")
-                                + (":close_during_receive" if "close_during_receive" in flags and code != 1006 else "")
-                                + (":after_cancelled_close" if in_close_wait else ""),
+                        # one discriminating circumstance per key, most specific first
+                        if in_close_wait:
+                            why = ":after_cancelled_close"
+                        elif code == 1006 and pc is None:
+                            why = ":peer_close_without_status"
+                        elif code == 1006 and "receive_timeout_fired" in flags:
+                            why = ":after_receive_timeout"
+                        elif code == 1006 and "two_closes_during_receive" in flags:
+                            why = ":two_closes_during_receive"
+                        elif code != 1006 and "close_during_receive" in flags:
+                            why = ":close_during_receive"
+                        else:
+                            why = ""
+                        violate("close_code", f"{name}:code_{code if code in (None, 1000, 1006) else 'other'}_despite_peer_close" + why,
                                 f"{name} received the peer's close frame (code {pc}) at t={t_pclose:.4f}, "
                                 f"{'sent its own at t=%.4f' % t_our_close if t_our_close is not None else 'sent none'}, nothing abnormal "
                                 f"happened, but reports close_code={code}; calls: {[_fmt_call(c) for c in sd.calls]}")
